@@ -112,6 +112,10 @@ class Verdict:
                   violations=len(seen), known_findings=sorted(self.known_hits), notes=self.notes)
         with open(os.path.join(VERIF, "evidence", f"{self.prop}.json"), "w") as f:
             json.dump(ev, f, indent=1, default=str)
+        rk = os.environ.get("KDVERIF_REPLAY_KEY")
+        if rk is not None:
+            hit = any(k == rk for k, _, _ in self.violations)
+            print(f"REPLAY {'REPRODUCED' if hit else 'NOT REPRODUCED'}: {rk}")
         st = "FAIL" if seen else "ok"
         print(f"[{self.prop}] {st} tier={self.tier} seed={self.seed} states={cov['states']} "
               f"traces={cov['traces_validated_against_impl']} evals={cov['evaluations']} "
